@@ -30,7 +30,7 @@ from vf.core import CaseResult, Ctx, Violation, exc_sig, hyp_run
 
 PROP_ID = 'C21'
 LEVEL = 'fault_enumeration'
-BUDGET = {'quick': 960, 'thorough': 24000}
+BUDGET = {'quick': 960, 'thorough': 6000}
 EXHAUSTIVE = {'quick': False, 'thorough': False}
 MANIFEST = {
     'engine': 'F',
